@@ -49,6 +49,8 @@ THEOREMS = [
     'CpProofs.C12.C12_log_single_line_escaped',
     'CpProofs.C12.C12_log_quote_guarded',
     'CpProofs.C12.C12_log_quote_strong_false',
+    'CpProofs.C12.undouble_strong',
+    'CpProofs.C12.C12_log_quote_strong_partial',
 ]
 LEVEL = 'proof'
 TECHNIQUE = ('Lean 4 proof over a byte-level model of header encoding, finalize, error/redirect page rendering and '
